@@ -68,9 +68,14 @@ pub fn run(rng: &mut Rng, n: usize, rep: &mut Report) {
         let dep = 1_000_000_000 * (1 + rng.below(50));
         let dep_value = (dep as f64) / 10f64.powi(d0) * pa0;
         let liq_dep = ((dep_value * (if stress { 1.2 } else { 50.0 }) / pl) * 10f64.powi(d1)) as u64 + 1_000_000;
+        // "thin" worlds: the liquidator's own deposit in the DEBT bank is nothing / a fraction of the repayment it will take
+        // on (its position there flips from deposit to debt, or is a pure borrow); it is collateralised in the asset bank,
+        // and a third user provides the debt bank's liquidity
+        let thin = !stress && s.users.len() > 2 && rng.chance(1, 3);
+        let funder = if thin { 2 } else { 1 };
         let setup = [
             Act::Deposit { u: 0, b: 0, amt: dep, upto: false },
-            Act::Deposit { u: 1, b: 1, amt: liq_dep, upto: false },
+            Act::Deposit { u: funder, b: 1, amt: liq_dep, upto: false },
         ];
         if !setup.iter().all(|a| matches!(s.step(a, &mut scratch), Some(Ok(())))) {
             rep.bump("prepare_failed");
@@ -96,8 +101,23 @@ pub fn run(rng: &mut Rng, n: usize, rep: &mut Report) {
                 rep.bump("stressed_liquidator");
             }
         }
+        if thin {
+            let frac = *rng.pick(&[0.0f64, 0.002, 0.05, 0.3, 0.8]);
+            let own = ((bor as f64) * frac) as u64;
+            let mut ok = matches!(s.step(&Act::Deposit { u: 1, b: 0, amt: dep.saturating_mul(30), upto: false }, &mut scratch), Some(Ok(())));
+            if own > 0 {
+                ok &= matches!(s.step(&Act::Deposit { u: 1, b: 1, amt: own, upto: false }, &mut scratch), Some(Ok(())));
+            }
+            if ok {
+                rep.bump("thin_liquidator");
+            } else {
+                rep.bump("prepare_failed");
+                done += 1;
+                continue;
+            }
+        }
         // the liquidator sometimes already holds a debt in the asset bank / a deposit in the asset bank
-        if !stress && rng.chance(1, 3) {
+        if !stress && !thin && rng.chance(1, 3) {
             let _ = s.step(&Act::Deposit { u: 1, b: 0, amt: dep / 3 + 1, upto: false }, &mut scratch);
         }
         s.w.advance(*rng.pick(&[0i64, 60, 86400]));
